@@ -98,4 +98,37 @@ pub fn report(out: &mut Out) {
         out.violation("C03:scaling-decision-applied", &format!("a ScalingDecision of the load balancer is now consumed by non-test code ({}): if it changes the shard set, keys must be migrated and home_unique re-proved across the change", c), json!({"site": c}));
     }
     out.extra.insert("routing_state_immutable(derived from the crate source by build.rs)".into(), json!(facts));
+    // ---- the dispatch layer: the source-derived tables against the model's (`Model/Dispatch.lean`):
+    // ENTRYPOINTS = the pub fns of ShardedActorState that reach a shard mailbox; DISPATCH = the ones
+    // the connection handler calls.  The model answers with ITS tables; a new entry point / a new
+    // call site shows as a disagreement on these two lines and as a named violation here.
+    const MODEL_ENTRY_POINTS: [&str; 8] = ["evict_expired_all_shards", "execute", "fast_batch_get_pipeline", "fast_batch_set_pipeline", "fast_get", "fast_set", "pooled_fast_get", "pooled_fast_set"];
+    let mut mailbox: Vec<&str> = MAILBOX_REACHING_FNS.to_vec();
+    mailbox.sort();
+    mailbox.dedup();
+    out.op("ENTRYPOINTS".into(), mailbox.join(","));
+    for f in &mailbox {
+        if !MODEL_ENTRY_POINTS.contains(f) {
+            out.violation(&format!("C03:dispatch:entry-point-not-modelled:{}", f), &format!("ShardedActorState::{} reaches a shard mailbox (its body uses self.shards) but is not an entry point of the model (Shards.EntryPoint): requests carried by it are outside entry_routes_home / entry_refines", f), json!({"fn": f}));
+        }
+    }
+    let mut conn: Vec<&str> = STATE_CALL_SITES.iter().filter(|(f, site)| site.starts_with("connection_optimized.rs") && mailbox.contains(f)).map(|(f, _)| *f).collect();
+    conn.sort();
+    conn.dedup();
+    out.op("DISPATCH".into(), conn.join(","));
+    let mut sites: BTreeMap<String, Vec<String>> = BTreeMap::new();
+    for (f, site) in STATE_CALL_SITES {
+        if mailbox.contains(f) {
+            sites.entry(f.to_string()).or_default().push(site.to_string());
+        }
+    }
+    for (f, at) in &sites {
+        for site in at {
+            let known = site.starts_with("connection_optimized.rs") || (site.starts_with("ttl_manager.rs") && f == "evict_expired_all_shards");
+            if !known {
+                out.violation(&format!("C03:dispatch:call-site-not-modelled:{}", f), &format!("{} calls ShardedActorState::{} — a caller the dispatch model (connection handler, TTL manager) does not know", site, f), json!({"fn": f, "site": site}));
+            }
+        }
+    }
+    out.extra.insert("dispatch_call_sites(entry point → call sites in src/production, derived from the source)".into(), json!(sites));
 }
